@@ -1,12 +1,12 @@
 #!/bin/bash
 # run a property's check (proof part + bounded stand-in on a scratch copy of the replay crate) against a seeded change applied to the
-# scratch worktree /tmp/mut (not /repo); verdict only, evidence untouched. VERIF_SCRATCH_REPLAY= (empty) skips the stand-in.
+# scratch worktree $M (not /repo); verdict only, evidence untouched. VERIF_SCRATCH_REPLAY= (empty) skips the stand-in.
 # usage: tools/seed_scratch.sh <patch.diff> <pid> [tier]
-patch=$1; pid=$2; tier=${3:-quick}
-[ -d /tmp/mut ] || git -C /repo worktree add --detach /tmp/mut HEAD >/dev/null 2>&1
-git -C /tmp/mut checkout -q --detach $(git -C /repo rev-parse HEAD); git -C /tmp/mut checkout -- .; git -C /tmp/mut clean -qfd
-git -C /tmp/mut apply $patch || { echo "PATCH DOES NOT APPLY"; exit 3; }
-cd /verif && VERIF_REPO=/tmp/mut VERIF_NO_EVIDENCE=1 VERIF_SCRATCH_REPLAY=${VERIF_SCRATCH_REPLAY-1} ./check $pid --tier $tier > /tmp/seed_scratch.out 2>&1; rc=$?
-if [ -n "$SEED_SCRATCH_RAW" ]; then grep -E "VIOLATION|UNDECIDED|KNOWN|NOTE" /tmp/seed_scratch.out; else grep -E "VIOLATION|UNDECIDED|KNOWN|OK|FAILED|NOTE" /tmp/seed_scratch.out | sed 's/replay=[^ ]* //' | cut -c1-330; fi
-git -C /tmp/mut checkout -- .; git -C /tmp/mut clean -qfd
+patch=$1; pid=$2; tier=${3:-quick}; M=${SCRATCH_TREE:-/tmp/mut}
+[ -d $M ] || git -C /repo worktree add --detach $M HEAD >/dev/null 2>&1
+git -C $M checkout -q --detach $(git -C /repo rev-parse HEAD); git -C $M checkout -- .; git -C $M clean -qfd
+git -C $M apply $patch || { echo "PATCH DOES NOT APPLY"; exit 3; }
+cd /verif && VERIF_REPO=$M VERIF_NO_EVIDENCE=1 VERIF_SCRATCH_REPLAY=${VERIF_SCRATCH_REPLAY-1} ./check $pid --tier $tier > $M.seed_scratch.out 2>&1; rc=$?
+if [ -n "$SEED_SCRATCH_RAW" ]; then grep -E "VIOLATION|UNDECIDED|KNOWN|NOTE" $M.seed_scratch.out; else grep -E "VIOLATION|UNDECIDED|KNOWN|OK|FAILED|NOTE" $M.seed_scratch.out | sed 's/replay=[^ ]* //' | cut -c1-330; fi
+git -C $M checkout -- .; git -C $M clean -qfd
 echo "seed=$(basename $(dirname $patch)) check=$pid rc=$rc"
